@@ -12,12 +12,20 @@ theorem sp_parseScopeModifier (d : TT) (k : Nat) (s : PState) (hi : Inv T E k s)
   tgo
 
 theorem sp_parsePoryswitchHeader (env : Env) (k : Nat) (s : PState) (hi : Inv T E k s) :
-    tri (El T E) (parsePoryswitchHeader env) s (Post T E (k + 1) (fun _ => True)) := by
+    tri (El T E) (parsePoryswitchHeader env) s (Post T E k (fun _ => True)) := by
   unfold parsePoryswitchHeader
   tsimp [hi.toks, hi.eof]
   tgo
 
-def FpOk (fp : FmtParams) : Prop := fp.fontIdToken.type = .STRING → Tin T E fp.fontIdToken
+def FpOk (fp : FmtParams) : Prop := fp.fontIdToken.type ≠ .STRING ∨ Tin T E fp.fontIdToken
+
+theorem fpok_tin {fp : FmtParams} (h : FpOk T E fp) (h2 : ¬ ¬ fp.fontIdToken.type = TT.STRING) :
+    Tin T E fp.fontIdToken := by
+  rcases h with h | h
+  · exact absurd h h2
+  · exact h
+
+theorem fpok_mk {fp : FmtParams} (h : fp.fontIdToken.type ≠ TT.STRING ∨ Tin T E fp.fontIdToken) : FpOk T E fp := h
 
 theorem sp_formatNamedParams : ∀ (n : Nat) (fp : FmtParams) (k : Nat) (s : PState), Inv T E k s → FpOk T E fp →
     tri (El T E) (formatNamedParams n fp) s (Post T E k (FpOk T E)) := by
@@ -28,7 +36,8 @@ theorem sp_formatNamedParams : ∀ (n : Nat) (fp : FmtParams) (k : Nat) (s : PSt
     intro fp k s hi hfp
     rw [formatNamedParams]
     tsimp [hi.toks, hi.eof]
-    tgo [ih]
+    tgo [ih, fpok_mk T E]
+
 
 end
 end Pory.Parser
